@@ -3,7 +3,7 @@
 cd "$(dirname "$0")/.."
 IDS=${1:-$(/venv/bin/python -c "import json;print(' '.join(c['property_id'] for c in json.load(open('MANIFEST.json'))['checks']))")}
 SEEDS=${2:-"1 2 3 17 12345"}
+TIER=${3:-quick}
 for id in $IDS; do for s in $SEEDS; do
-  out=$(VERIF_SEED=$s timeout 1500 /venv/bin/python -m vlib.run $id --tier quick 2>&1 | sed 's/\x1b\[[0-9;]*m//g' | cut -c1-500 | tail -4); rc=$?
+  out=$(VERIF_SEED=$s timeout 9000 /venv/bin/python -m vlib.run $id --tier $TIER 2>&1 | sed 's/\x1b\[[0-9;]*m//g' | cut -c1-500 | tail -4); rc=$?
   echo "$out" | grep -q "unlisted_signatures=0" && echo "OK   $id seed=$s $(echo "$out" | tail -1 | sed 's/.*evaluations/evaluations/')" || { echo "FAIL $id seed=$s"; echo "$out"; }
-done; done
